@@ -6,7 +6,8 @@ count fatally, the C++ wrapper delegates to istream::read and nothing reachable 
 clears stream state or swallows exceptions; R4 a producer that can return "no object" is tested before
 use by every consumer; R5 every dimension read from the stream reaches a field or is fatally validated;
 R6 property parsers throw on missing/malformed text; R7 the text-section parser returns a section only under an equality
-test of the whole line with the END line built from the title of the BEGIN line.
+test of the whole line with the END line built from the title of the BEGIN line; R8 every reader requests exactly the bytes
+its writer produced (the writer/reader mirror of C05.R1, re-evaluated: a tail that is never requested can be truncated silently).
 Not decided: the exhaustive statement over every byte offset (runtime enumeration).
 """
 import re
@@ -83,6 +84,10 @@ def run(chk):
         chk.analysed["variants"] = chk.analysed.get("variants", 0) + 1
         printer, parser = ioseq.find_primitives(v)
         check_section_end(chk, v, parser)
+        # ---------------- R8 the reader asks for every byte the writer produced (C05.R1 re-evaluated): what a reader never requests
+        # can be cut off without any read failing
+        from rules import c05 as _c05
+        _c05.check_mirror(chk, v, "R8")
         nr = v.noreturn
         # ---------------- R1 tags
         # readers: the functions with external linkage that read binary data, directly or through file-local (static)
